@@ -353,6 +353,27 @@ func main() {
 	os.WriteFile(filepath.Join(*verif, "evidence", prop+".json"), append(data, '\n'), 0o644)
 
 	if *verbose {
+		slow := append([]*Obligation(nil), obls...)
+		sort.Slice(slow, func(i, j int) bool {
+			a, b := int64(0), int64(0)
+			if slow[i].Result != nil {
+				a = slow[i].Result.Ms
+			}
+			if slow[j].Result != nil {
+				b = slow[j].Result.Ms
+			}
+			return a > b
+		})
+		for _, o := range obls {
+			if o.Result != nil && len(o.Result.Tried) > 1 {
+				fmt.Fprintf(os.Stderr, "  fallback: %s %v cover=%v %s\n", o.Name, o.Result.Tried, o.Cover, o.Result.File)
+			}
+		}
+		for i := 0; i < 6 && i < len(slow); i++ {
+			if slow[i].Result != nil && slow[i].Result.Ms > 1000 {
+				fmt.Fprintf(os.Stderr, "  slow: %s %dms %v %s\n", slow[i].Name, slow[i].Result.Ms, slow[i].Result.Tried, slow[i].Result.File)
+			}
+		}
 		for _, n := range names {
 			l := byName[n]
 			st := "ok"
@@ -362,6 +383,11 @@ func main() {
 			fmt.Fprintf(os.Stderr, "  %-70s %-14s %s %dms paths=%d %s\n", n, st, l.Solver, l.Ms, len(l.Subs), l.Pos)
 			if !l.OK && *dump && l.Fail != nil && l.Fail.Result != nil {
 				fmt.Fprintf(os.Stderr, "      smt: %s  tried: %v\n", l.Fail.Result.File, l.Fail.Result.Tried)
+				g := l.Fail.Goal.S
+				if len(g) > 400 {
+					g = g[:400] + "..."
+				}
+				fmt.Fprintf(os.Stderr, "      goal: %s\n", g)
 			}
 		}
 	}
